@@ -4,3 +4,4 @@ INVARIANT Reference
 INVARIANT QuietPairRule
 CHECK_DEADLOCK FALSE
 CONSTANT MaxFrames = 1
+CONSTANT MaxOff = 1
